@@ -128,7 +128,10 @@ pub fn install_quiet_panic_hook() {
     let prev = std::panic::take_hook();
     std::panic::set_hook(Box::new(move |info| {
         if !QUIET.with(|q| q.get()) {
+            // a panic outside a node thread is a bug of the harness itself
             prev(info);
+            eprintln!("zksim: panic outside a simulated node (harness error)");
+            std::process::exit(2);
         }
     }));
 }
@@ -193,11 +196,10 @@ fn node_main(seed: [u64; 4], cmd_rx: Receiver<Cmd>, reply_tx: Sender<Reply>, res
 pub type NodeId = usize;
 type Cont = Box<dyn FnOnce(&mut Cx, RawOutcome)>;
 
-struct Pending {
-    label: String,
-    job: Job,
-    opts: StepOpts,
-    cont: Cont,
+enum Pending {
+    Step { label: String, job: Job, opts: StepOpts, cont: Cont },
+    /// crash-restart marker: takes effect when everything queued before it has run
+    Restart,
 }
 
 struct Node {
@@ -346,6 +348,10 @@ impl Cx {
     /// and the thread-local RNG) is gone; the new incarnation gets a new entropy stream.
     /// What the node remembers is the scenario's business (it reloads from its store).
     pub fn restart(&mut self, n: NodeId) {
+        self.nodes[n].queue.push_back(Pending::Restart);
+    }
+
+    fn do_restart(&mut self, n: NodeId) {
         assert!(self.nodes[n].parked.is_none(), "restart of a parked node");
         let _ = self.nodes[n].cmd_tx.send(Cmd::Exit);
         if let Some(j) = self.nodes[n].join.take() {
@@ -385,7 +391,7 @@ impl Cx {
                 Step { out, ticks: raw.ticks, alloc_bytes: raw.alloc_bytes, alloc_max: raw.alloc_max, ent: raw.ent, preempted: raw.preempted },
             )
         });
-        self.nodes[n].queue.push_back(Pending { label: label.to_string(), job, opts, cont });
+        self.nodes[n].queue.push_back(Pending::Step { label: label.to_string(), job, opts, cont });
     }
 
     /// Drive the run until no node has anything left to do.
@@ -403,17 +409,23 @@ impl Cx {
                 let _ = self.nodes[n].resume_tx.send(());
                 (label, cont)
             } else {
-                let mut p = self.nodes[n].queue.pop_front().unwrap();
-                if p.opts.preempt_at.is_none() && self.preemptions_left > 0 && self.nodes.len() > 1 {
+                let (label, job, mut opts, cont) = match self.nodes[n].queue.pop_front().unwrap() {
+                    Pending::Restart => {
+                        self.do_restart(n);
+                        continue;
+                    }
+                    Pending::Step { label, job, opts, cont } => (label, job, opts, cont),
+                };
+                if opts.preempt_at.is_none() && self.preemptions_left > 0 && self.nodes.len() > 1 {
                     // PCT-style: a small number of preemption points per run
                     if self.ch.chance("preempt?", 1, 4) {
                         let at = 1 + self.ch.choose("preempt_at", 24);
-                        p.opts.preempt_at = Some(at);
+                        opts.preempt_at = Some(at);
                     }
                 }
                 self.steps += 1;
-                let _ = self.nodes[n].cmd_tx.send(Cmd::Run(p.job, p.opts));
-                (p.label, p.cont)
+                let _ = self.nodes[n].cmd_tx.send(Cmd::Run(job, opts));
+                (label, cont)
             };
             let who = self.node_name(n);
             self.sched_hasher.update(who.as_bytes());
